@@ -88,3 +88,21 @@ Theorem C04_upload_active : forall w u path chunks r1 r2 rest x1 x2 x3 line,
       [DNewObj; DListen; DAcceptOk; DTcpShutdown; DClose; DAccClose].
 Proof. exact upload_active_complete. Qed.
 Print Assumptions C04_upload_active.
+
+From LibFtp Require Import Bytes_Global Upload_Global.
+(* ------------------------------------------------------------------ every upload, every state, every server *)
+(* In binary type the bytes an upload / append / unique-name upload writes to the data connection ([net_out_bytes] of the
+   call's events) are the concatenation of the first k blocks the caller's source yields before its first empty read, for
+   some k - a prefix of the source in whole blocks, in order, nothing added, repeated or reordered; and nothing else is
+   written to a data connection in the call - whether the upload completes, is cancelled, is refused or fails *)
+Theorem C04_upload_writes_a_prefix_of_the_source : forall u path chunks cb w, c_type (w_cfg w) = TBinary ->
+  exists tr k, w_trace (snd (step w (AUpload u path chunks cb))) = w_trace w ++ tr /\
+    net_out_bytes (ios tr) = concat (firstn k (upto_empty chunks)).
+Proof. exact upload_writes_a_prefix_of_the_source. Qed.
+Print Assumptions C04_upload_writes_a_prefix_of_the_source.
+
+Example C04_upload_example :
+  let w0 := init_world (mkConfig Passive true TBinary false false) upload_script in
+  let tr := w_trace (snd (steps w0 [AConnect [104%N] 21%N None; AUpload UStor [102%N] [[1;2]; [3]; [4;5;6]; []; [9]]%N None])) in
+  net_out_bytes (ios tr) = [1;2;3;4;5;6]%N.
+Proof. exact upload_example. Qed.
